@@ -116,15 +116,16 @@ class Report:
         for c, n in self.nonconf.items():
             print(f"NONCONFORMANCE clause={c} count={n}")
         if self.violations:
-            seen = set()
+            groups = {}
             for clause, where, what, path in self.violations:
                 k = (clause, cjson(where))
-                if k in seen:
-                    continue
-                seen.add(k)
-                if path is None:
-                    continue
-                print(f"VIOLATION property={self.pid} replay={path} clause={clause} where={cjson(where)} :: {what}")
+                g = groups.setdefault(k, {"n": 0, "path": None, "what": what})
+                g["n"] += 1
+                if g["path"] is None and path is not None:
+                    g["path"] = path
+            anypath = next((p for _, _, _, p in self.violations if p), "-")
+            for (clause, where), g in groups.items():
+                print(f"VIOLATION property={self.pid} replay={g['path'] or anypath} clause={clause} count={g['n']} where={where} :: {g['what']}")
             print(f"{self.pid}: {len(self.violations)} violation(s)")
             return 1
         print(f"{self.pid}: OK ({tier()}, {self.timer.s()} s) " + ", ".join(f"{k}={v}" for k, v in cov.items() if isinstance(v, (int, bool))))
